@@ -17,6 +17,10 @@ namespace Clipper2Lib { namespace verif {
   //       is_open, is_hot, cliptype, fillrule }
   typedef void (*AelFn)(int n, const long long* v);
   inline thread_local AelFn ael_fn = nullptr;
+  // vertex flags assigned by AddPaths_, one call per vertex of a processed path (in list order) and a final
+  // call with n = -1:  v = { x, y, flags (OpenStart 1, OpenEnd 2, LocalMax 4, LocalMin 8), path type, is_open }
+  typedef void (*VertexFn)(int n, const long long* v);
+  inline thread_local VertexFn vertex_fn = nullptr;
 }}
 #define CLIPPER2_VERIF_YIELD(site) ::Clipper2Lib::verif::Yield(site)
 #else
